@@ -390,7 +390,8 @@ def numerics(ctx):
                                      "displacement_norm": float(np.linalg.norm(delta[:3]))} if matched == 0 else None)
                     matched += 1
                     # (a) displaced by the configured distance (position norm)
-                    if not abs(np.linalg.norm(delta[:3]) - disp) <= 2e-2 * disp + 1e-10:
+                    ctx.extra['worst_distance_rel_dev'] = max(ctx.extra.get('worst_distance_rel_dev', 0.0), abs(float(np.linalg.norm(delta[:3])) - disp) / disp)
+                    if not abs(np.linalg.norm(delta[:3]) - disp) <= 2e-3 * disp:
                         ctx.violation("seed-distance", "seed is displaced by %g (position norm), configured %g" % (np.linalg.norm(delta[:3]), disp),
                                       {"orbit": kind, "stable": stable, "direction": direction, "fraction": float(fracs[j]), "seed": seed.tolist(), "orbit_point": xo.tolist()})
                         return
